@@ -405,6 +405,8 @@ class Plane:
         return np.vstack([p, p, p]).T * rays + pts, ~denom_is_zero
 
     def line_segment_xsections(self, a, b):
+        k = vg.shape.check(locals(), "a", (-1, 3))
+        vg.shape.check(locals(), "b", (k, 3))
         pts, pt_is_valid = self.line_xsections(a, b - a)
         pt_is_out_of_bounds = np.logical_or(
             np.any(
